@@ -290,7 +290,9 @@ def build(t, cache=None):
             sl = sl[0]
         cls = type(n, (it[sl],), {})
     elif k == "ur":
-        cls = type(n, (xo.UnionRef,), {"_reftypes": [build(m, cache) for m in t["m"]]})
+        # "base": the name of another union class this one derives from (it still declares its own members)
+        base = cache[t["base"]] if t.get("base") in cache else xo.UnionRef
+        cls = type(n, (base,), {"_reftypes": [build(m, cache) for m in t["m"]]})
     else:
         raise ValueError(k)
     cache[n] = cls
